@@ -105,6 +105,7 @@ def generate(rng, tier):
         spec["replace"] = {"elements": list(spec["pattern"]["elements"]), "positions": [list(x) for x in spec["pattern"]["positions"]],
                            "charges": None, "groups": None, "mode": "identity"}
         opts["pat_fmt"] = "lmpdat"
+    opts["in_place"] = rng.random() < 0.12
     opts["unwrapped"] = rng.random() < 0.15        # some atoms given outside the cell (periodic images of the wrapped ones)
     spec["opts"] = opts
     spec["script"] = spec["scripts"][rng.randrange(len(spec["scripts"]))]
@@ -257,7 +258,21 @@ def execute(spec, ctx):
             raise HarnessError("could not write input files: %r" % (e,))
         out_cli = os.path.join(d, "out_cli.%s" % o["out_fmt"])
         out_api = os.path.join(d, "out_api.%s" % o["out_fmt"])
+        if o.get("in_place") and o["in_fmt"] == o["out_fmt"]:
+            # the output path IS the input path (parameterising a file in place): the command line reads it before it writes it;
+            # the API path works from a copy taken beforehand
+            keep = os.path.join(d, "input_copy.%s" % o["in_fmt"])
+            shutil.copyfile(paths["input"], keep)
+            out_cli = paths["input"]
+            ctx.count("in_place_runs")
+        elif o.get("in_place"):
+            # ... or an earlier result already sits at the output path
+            with open(out_cli, "w") as f:
+                f.write("stale output of an earlier run\n")
+            ctx.count("output_path_already_exists")
         args = _cli_args(spec, paths, out_cli)
+        if o.get("in_place") and o["in_fmt"] == o["out_fmt"]:
+            paths = dict(paths, input=keep)
         ctx.event("cli", [re.sub(r"^.*/", "", a) if a.startswith(d) else a for a in args])
         tap_r = seams.Tap(ctx, cli, "replace_pattern_in_structure")
         tap_f = seams.Tap(ctx, cli, "find_pattern_in_structure")
